@@ -154,7 +154,7 @@ Section WithEnvs.
     | OpGetSlice a b c => cmp_coll (getitem_slice expr a b c r) out 3
     | OpAddDist d => cmp_coll (add_dist expr r d) out 4
     | OpRAddDist d => cmp_coll (radd_dist expr r d) out 4
-    | OpAddColl ds => cmp_coll (Ok (add_coll expr r ds)) out 4
+    | OpAddColl ds => cmp_coll (add_coll expr r ds) out 4
     | OpSubs nm pm => cmp_coll (m_subs nm pm r) out 5
     | OpLevels w =>
         cmp_coll (Ok (match w with 0 => etas expr r | 1 => epsilons expr r | 2 => iiv expr r | _ => iov expr r end)) out 6
@@ -213,7 +213,7 @@ Section WithEnvs.
         let na := s_names a in
         let filling := negb (e_is_zero fill) in
         tag (setp_eqb na (s_names b) && (length na =? length (s_names b))) 11 ++
-        (* every variance preserved (guard 201: a joined variable with variance 0 and fill != 0) *)
+        (* every variance preserved (201 is only a fact now: a joined variable with variance 0 and fill != 0) *)
         tag3 (vars_preserved a b na idf) 12 1012 ++
         tag (negb (filling && existsb (fun x => memp x inds && oexpr_is_zero (st_var a x)) na)) 201 ++
         (* covariances of pairs that stay in one block (guard 202: an in-block covariance equal to 0
@@ -250,14 +250,13 @@ Section WithEnvs.
                                                    (st_cov b (subs_name nm (fst p)) (subs_name nm (snd p))))
                                   (pairs_of (s_names a))) 0) 13 1013 ++
         tag (forallb (fun x => olevel_eqb (st_level a x) (st_level b (subs_name nm x))) (s_names a)) 19
-    (* + does not check that names stay unique (only create() does): the (co)variance statements
-       are evaluated under the hypothesis of add_keeps_cov, NoDup of the resulting names *)
-    | OpAddDist d, Some b => tag (list_eqb Pos.eqb (s_names a ++ dnames d) (s_names b)) 11 ++
-                             (if nodupb (s_names b) then tag3 (vars_preserved a b (s_names a) idf) 12 1012 else [])
-    | OpRAddDist d, Some b => tag (list_eqb Pos.eqb (dnames d ++ s_names a) (s_names b)) 11 ++
-                              (if nodupb (s_names b) then tag3 (vars_preserved a b (s_names a) idf) 12 1012 else [])
-    | OpAddColl ds, Some b => tag (list_eqb Pos.eqb (s_names a ++ names ds) (s_names b)) 11 ++
-                              (if nodupb (s_names b) then tag3 (vars_preserved a b (s_names a) idf) 12 1012 else [])
+    (* + goes through create (unique names or ValueError): a result keeps every variance *)
+    | OpAddDist d, Some b => tag (list_eqb Pos.eqb (s_names a ++ dnames d) (s_names b) && nodupb (s_names b)) 11 ++
+                             tag3 (vars_preserved a b (s_names a) idf) 12 1012
+    | OpRAddDist d, Some b => tag (list_eqb Pos.eqb (dnames d ++ s_names a) (s_names b) && nodupb (s_names b)) 11 ++
+                              tag3 (vars_preserved a b (s_names a) idf) 12 1012
+    | OpAddColl ds, Some b => tag (list_eqb Pos.eqb (s_names a ++ names ds) (s_names b) && nodupb (s_names b)) 11 ++
+                              tag3 (vars_preserved a b (s_names a) idf) 12 1012
     | OpLevels _, Some b =>
         tag3 (fold_left vand (map (fun p => oagree (st_cov a (fst p) (snd p)) (st_cov b (fst p) (snd p)))
                                   (pairs_of (s_names b))) 0) 18 1018
